@@ -218,6 +218,98 @@ theorem plant_exact_elem (o : Options) (rules : List Rule) (w : Schema) (r : Rul
   rw [hflag]
   simp
 
+/-- **Every kind of field is visited.**  The field iterator (NewLintFieldRuleHandler) enumerates
+    (1) every FILE-LEVEL extension — at `[7, i]`, with NO parent message —, and for every message
+    `x` nested at any depth below a top-level message (2) every declared field of `x` — plain
+    fields, oneof members, map fields and group fields all live there — and (3) every extension
+    declared inside `x`, both with parent `x`.  (The synthetic `key`/`value` fields of a map
+    entry and the fields of a group body are case (2) for the synthetic / group message.) -/
+theorem field_visit_complete (f : File) :
+    (∀ fd ∈ f.exts, ∃ i, ([7, i], (none : Option Message), fd) ∈ fileFields f) ∧
+    (∀ top ∈ f.msgs, ∀ x, Nested x top →
+      (∀ fd ∈ x.fields, ∃ p, (p, some x, fd) ∈ fileFields f) ∧
+      (∀ fd ∈ x.exts, ∃ p, (p, some x, fd) ∈ fileFields f)) := by
+  refine ⟨fun fd h => fileFields_fileExt f fd h, ?_⟩
+  intro top ht x hx
+  obtain ⟨p, hp⟩ := (nested_visit_complete f top x ht hx).1
+  refine ⟨fun fd h => ?_, fun fd h => ?_⟩
+  · obtain ⟨i, hi⟩ := fileFields_msgField f p x hp fd h
+    exact ⟨_, hi⟩
+  · obtain ⟨i, hi⟩ := fileFields_msgExt f p x hp fd h
+    exact ⟨_, hi⟩
+
+/-- **No enumerated element is skipped.**  If a configured per-element rule enumerates an element
+    in a non-import file and its coded predicate holds, lint reports it at the rule's location. -/
+theorem elem_bad_reported (o : Options) (rules : List Rule) (w : Schema) (r : Rule) (er : ElemRule)
+    (he : elemRule r = some er) (hr : r ∈ rules) (f : File) (hf : f ∈ w) (hni : f.isImport = false)
+    (e : er.α) (hmem : e ∈ er.els f) (hbad : er.bad o e = true) :
+    ann r f (er.loc e) ∈ lint o rules w := by
+  unfold lint
+  exact List.mem_flatMap.mpr ⟨r, hr, mem_runRule_of_bad o w r er he f hf hni e hmem hbad⟩
+
+/-- **The four field rules report every visited field that is not a map-entry member** —
+    whatever its parent is, `none` included: a missing comment (unless the field is a group, whose
+    comment belongs to the nested message), a name that is not its own lower_snake_case form, a
+    name that is `descriptor` up to case and surrounding underscores, a required label. -/
+theorem field_rules_report (o : Options) (rules : List Rule) (w : Schema) (f : File) (hf : f ∈ w)
+    (hni : f.isImport = false) (p : List Nat) (pm : Option Message) (fd : Field)
+    (hmem : (p, pm, fd) ∈ fileFields f) (hpm : isMapEntryParent pm = false) :
+    (.COMMENT_FIELD ∈ rules → fd.group = false →
+        validLeadingComment o.commentExcludes fd.comment = false →
+        (⟨.COMMENT_FIELD, f.path, p⟩ : Annotation) ∈ lint o rules w) ∧
+    (.FIELD_LOWER_SNAKE_CASE ∈ rules → fd.name ≠ toLowerSnakeCase false fd.name →
+        (⟨.FIELD_LOWER_SNAKE_CASE, f.path, p ++ [1]⟩ : Annotation) ∈ lint o rules w) ∧
+    (.FIELD_NO_DESCRIPTOR ∈ rules → (trimUnderscores fd.name).map toLower = "descriptor".toList →
+        (⟨.FIELD_NO_DESCRIPTOR, f.path, p ++ [1]⟩ : Annotation) ∈ lint o rules w) ∧
+    (.FIELD_NOT_REQUIRED ∈ rules → fd.required = true →
+        (⟨.FIELD_NOT_REQUIRED, f.path, p ++ [1]⟩ : Annotation) ∈ lint o rules w) := by
+  refine ⟨fun hr hg hv => ?_, fun hr hn => ?_, fun hr hd => ?_, fun hr hq => ?_⟩
+  · exact elem_bad_reported o rules w .COMMENT_FIELD _ rfl hr f hf hni (p, pm, fd) hmem
+      (by simp [hpm, hg, hv])
+  · exact elem_bad_reported o rules w .FIELD_LOWER_SNAKE_CASE _ rfl hr f hf hni (p, pm, fd) hmem
+      (by simp [hpm, hn])
+  · exact elem_bad_reported o rules w .FIELD_NO_DESCRIPTOR _ rfl hr f hf hni (p, pm, fd) hmem
+      (by simp [hd])
+  · exact elem_bad_reported o rules w .FIELD_NOT_REQUIRED _ rfl hr f hf hni (p, pm, fd) hmem
+      (by simp [hq])
+
+/-- **File-level extension fields are not skipped.**  `extend Foo { optional string x = 100; }`
+    at the top level of a non-import file: the field has no parent message, and each of the four
+    field rules reports it at `[7, i]` (comment) / `[7, i, 1]` (name) when its predicate holds. -/
+theorem file_extension_reported (o : Options) (rules : List Rule) (w : Schema) (f : File) (hf : f ∈ w)
+    (hni : f.isImport = false) (fd : Field) (hx : fd ∈ f.exts) : ∃ i,
+    (.COMMENT_FIELD ∈ rules → fd.group = false →
+        validLeadingComment o.commentExcludes fd.comment = false →
+        (⟨.COMMENT_FIELD, f.path, [7, i]⟩ : Annotation) ∈ lint o rules w) ∧
+    (.FIELD_LOWER_SNAKE_CASE ∈ rules → fd.name ≠ toLowerSnakeCase false fd.name →
+        (⟨.FIELD_LOWER_SNAKE_CASE, f.path, [7, i, 1]⟩ : Annotation) ∈ lint o rules w) ∧
+    (.FIELD_NO_DESCRIPTOR ∈ rules → (trimUnderscores fd.name).map toLower = "descriptor".toList →
+        (⟨.FIELD_NO_DESCRIPTOR, f.path, [7, i, 1]⟩ : Annotation) ∈ lint o rules w) ∧
+    (.FIELD_NOT_REQUIRED ∈ rules → fd.required = true →
+        (⟨.FIELD_NOT_REQUIRED, f.path, [7, i, 1]⟩ : Annotation) ∈ lint o rules w) := by
+  obtain ⟨i, hi⟩ := (field_visit_complete f).1 fd hx
+  exact ⟨i, field_rules_report o rules w f hf hni [7, i] none fd hi rfl⟩
+
+/-- **Map-entry members and group fields are exempt exactly as coded**: COMMENT_FIELD and
+    FIELD_LOWER_SNAKE_CASE never flag a field whose parent is a synthetic map entry, and
+    COMMENT_FIELD never flags a group field (its comment documents the nested message). -/
+theorem map_entry_and_group_exempt (o : Options) (p : List Nat) (m : Message) (pm : Option Message)
+    (fd : Field) :
+    (m.mapEntry = true →
+      ((elemRule .COMMENT_FIELD).get rfl).bad o (p, some m, fd) = false ∧
+      ((elemRule .FIELD_LOWER_SNAKE_CASE).get rfl).bad o (p, some m, fd) = false) ∧
+    (fd.group = true → ((elemRule .COMMENT_FIELD).get rfl).bad o (p, pm, fd) = false) := by
+  refine ⟨fun hm => ⟨?_, ?_⟩, fun hg => ?_⟩
+  · show (if (isMapEntryParent (some m) || fd.group) = true then false
+        else !validLeadingComment o.commentExcludes fd.comment) = false
+    simp [isMapEntryParent, hm]
+  · show (if isMapEntryParent (some m) = true then false
+        else fd.name != toLowerSnakeCase false fd.name) = false
+    simp [isMapEntryParent, hm]
+  · show (if (isMapEntryParent pm || fd.group) = true then false
+        else !validLeadingComment o.commentExcludes fd.comment) = false
+    simp [hg]
+
 -- non-vacuity: a workspace with a nested message/enum, a service and an import-only file full
 -- of violations is Clean for every modelled rule; planting one violation yields exactly it.
 example : cleanB {} Rule.all exWs = true := by decide
@@ -226,6 +318,15 @@ example : lint {} Rule.all (exPlantPublic) = [⟨.IMPORT_NO_PUBLIC, "acme/foo/v1
 example : lint {} Rule.all (exPlantEnumName) =
     [⟨.ENUM_PASCAL_CASE, "acme/foo/v1/types.proto".toList, [4, 0, 3, 0, 4, 0, 1]⟩] := by decide
 example : Nested exInner exOuter := .step (by show exInner ∈ [exInner]; simp) (.refl _)
+-- non-vacuity for the field kinds: a file with a plain field, oneof members, a map field (and its
+-- synthetic entry message), a group field (and its nested message), an extension nested in a
+-- message and two file-level extensions is Clean; planting at a FILE-LEVEL extension (parent
+-- message `none`) yields exactly that annotation.
+example : cleanB {} Rule.all exKinds = true := by decide
+example : lint {} Rule.all exKindsPlantFileExtComment =
+    [⟨.COMMENT_FIELD, "acme/foo/v1/kinds.proto".toList, [7, 1]⟩] := by decide
+example : lint {} Rule.all exKindsPlantFileExtName =
+    [⟨.FIELD_LOWER_SNAKE_CASE, "acme/foo/v1/kinds.proto".toList, [7, 0, 1]⟩] := by decide
 
 /-- IMPORT_NO_WEAK is registered with a handler that does nothing (deprecated, in no category):
     a weak import is never reported — the property's "weak import" clause is not implemented by
